@@ -44,6 +44,11 @@ func propC06(w *World, r *Report) {
 	}
 	sort.Slice(applyFns, func(i, j int) bool { return fnName(applyFns[i]) < fnName(applyFns[j]) })
 	RunMapMiss(w, r, applyFns)
+	RunCovGate(w, r, applyFns)
+	RunEmptyRecord(w, r, applyFns)
+	RunKernPairFirst(w, r)
+	r.Floor("emptyrecord", 2)
+	r.Floor("covgate", 15)
 	r.Floor("mapmiss", 10)
 	RunIterFresh(w, r, gt)
 	RunIterFreshControl(r)
